@@ -77,6 +77,13 @@ def case(fn, cid, **params):
 def cases(tier):
     out = []
     thorough = tier == 'thorough'
+    # integers beyond 2**53 with concrete wide limits (the symbolic value is checked for exactness on the witness replay)
+    for wname, lim in (('int64', [-(1 << 63), (1 << 63) - 1]), ('uint64', [0, (1 << 64) - 1]), ('pm2p64', [-(1 << 64), 1 << 64])):
+        wide = {'k': 'int', 'fixed': lim}
+        for path in ('wire', 'driver'):
+            out.append(case('run_validate', f'int-wide-{wname}/bigint/{path}', shape=wide, cand='bigint', path=path))
+            out.append(case('run_validate', f'array-int-wide-{wname}/bigint/{path}', shape={'k': 'array', 'of': wide}, cand=['list', ['bigint']], path=path))
+            out.append(case('run_validate', f'struct-int-wide-{wname}/bigint/{path}', shape={'k': 'struct', 'of': {'a': wide}}, cand=['dict', {'a': 'bigint'}], path=path))
     for name, shape in LEAVES.items():
         for t in NUM_TAGS:
             for path in ('wire', 'driver'):
@@ -135,6 +142,10 @@ def cases(tier):
     for path in ('wire', 'driver'):
         out.append(case('run_validate', f'tuple/good/{path}', shape=tup, cand=['list', tgood], path=path))
     out.append(case('run_validate', 'tuple/good/prev', shape=tup, cand=['list', tgood], prevlen=3, path='wire'))
+    # a previous value shorter than the tuple (e.g. stored before the datatype grew) must not cut the result short
+    for n in (0, 1, 2):
+        out.append(case('run_validate', f'tuple/good/prev-short{n}', shape=tup, cand=['list', tgood], prevlen=n, prevshort=True, path='wire'))
+        out.append(case('run_validate', f'tuple/good/prev-short{n}/validate', shape=tup, cand=['list', tgood], prevlen=n, prevshort=True, path='validate'))
     for n in (0, 2, 4):
         out.append(case('run_validate', f'tuple/arity{n}', shape=tup, cand=['list', (tgood + ['int'])[:n]], path='wire'))
     for pos, bad in ((0, 'strab'), (1, 'float'), (2, 'int'), (0, 'none'), (1, 'bool')):
@@ -156,15 +167,29 @@ def cases(tier):
         full = {n: kinds[n] for n in names}
         variants = {'full': full, 'only-x': {'x': 'float'}, 'none-n': dict(full, n='none'), 'empty': {},
                     'unknown': dict(full, zz='int'), 'bad-x': dict(full, x='strab'), 'bad-n': dict(full, n='float'),
-                    'missing-x': {n: k for n, k in full.items() if n != 'x'}}
+                    'missing-x': {n: k for n, k in full.items() if n != 'x'},
+                    'none-x': dict(full, x='none')}
         for vn, v in variants.items():
             for prev in (False, True):
                 out.append(case('run_validate', f'{sname}/{vn}/prev{int(prev)}', shape=sshape, cand=['dict', v],
                                 prevfull=prev, path='wire'))
             out.append(case('run_validate', f'{sname}/{vn}/driver', shape=sshape, cand=['dict', v], path='driver'))
-        for t in ['strab', 'list0', 'list1', 'none', 'int', "lit:[('x', 1.0)]", "lit:[['x', 1.0], ['n', 1]]"]:
-            for path in ('wire', 'driver'):
+        for vn in ('none-x', 'full'):
+            out.append(case('run_validate', f'{sname}/{vn}/validate-direct', shape=sshape, cand=['dict', variants[vn]], path='validate'))
+        for t in ['strab', 'list0', 'list1', 'none', 'int', "lit:[('x', 1.0)]", "lit:[['x', 1.0], ['n', 1]]", "lit:{1: 2}", "lit:{'x': 1.0, 2: 3}",
+                  ]:
+            for path in ('wire', 'driver') + (('validate',) if t.startswith('lit:{') else ()):
                 out.append(case('run_validate', f'{sname}/{t}/{path}', shape=sshape, cand=t, path=path))
+    # validate(value, previous) called directly (as the dispatcher does after import_value, and as drivers may): a struct with an enum
+    # member and a previous value holding the same member; candidates equal to, near and different from the previous members
+    sten = {'k': 'struct', 'of': {'e': ENUM, 'x': D, 'n': I}}
+    stnest = {'k': 'struct', 'of': {'in': {'k': 'struct', 'of': {'e': ENUM}}, 'x': D}}
+    for sname, sshape, mk in (('struct-enum', sten, lambda e: {'e': e, 'x': 'float', 'n': 'int'}),
+                              ('struct-nested-enum', stnest, lambda e: {'in': ['dict', {'e': e}], 'x': 'float'})):
+        for e in ('smallint', 'lit:1.5', 'lit:2.5', 'lit:1.0', "lit:'a'", 'float', 'lit:True'):
+            for path in ('wire', 'validate'):
+                c = case('run_validate', f'{sname}/e-{e}/prev/{path}', shape=sshape, cand=['dict', mk(e)], prevfull=True, path=path)
+                out.append(c)
     # depth 3
     deep = {'k': 'array', 'of': {'k': 'struct', 'of': {'p': {'k': 'tuple', 'of': [D, ENUM]}, 'q': I}, 'optional': ['q']}}
     dgood = ['dict', {'p': ['list', ['float', 'smallint']], 'q': 'int'}]
@@ -194,6 +219,8 @@ def run_validate(env, p):
         prev = tuple(M.valid_value(env, spec.sub, f'p[{i}]') for i in range(p['prevlen']))
     elif p.get('prevlen') is not None and spec.kind == 'tuple':
         prev = M.valid_value(env, spec, 'p')
+        if p.get('prevshort'):
+            prev = prev[:p['prevlen']]
     elif p.get('prevfull'):
         prev = M.valid_value(env, spec, 'p')
     key = 'C01/' + p['path']
@@ -201,6 +228,8 @@ def run_validate(env, p):
         if wire:
             v = spec.dt.import_value(cand.value)
             r = spec.dt.validate(v, prev)
+        elif p['path'] == 'validate':
+            r = spec.dt.validate(cand.value, prev)
         else:
             r = spec.dt(cand.value)
     except BadValueError:
@@ -211,10 +240,10 @@ def run_validate(env, p):
         env.fail(f'{key}/{spec.kind}/other-exception/{type(e).__name__}/{M_desc(cand)}', repr(e))
         return
     env.note('accepted')
-    M.judge_accept(env, spec, cand, r, key, wire=wire, limits=wire, prev=prev)
+    M.judge_accept(env, spec, cand, r, key, wire=wire, limits=wire or p['path'] == 'validate', prev=prev)
     # validating a validated value returns it unchanged
     try:
-        r2 = spec.dt.validate(r) if wire else spec.dt(r)
+        r2 = spec.dt.validate(r) if wire or p['path'] == 'validate' else spec.dt(r)
     except Exception as e:
         env.fail(f'{key}/{spec.kind}/revalidation-raises/{type(e).__name__}', repr(e))
         return
